@@ -63,7 +63,7 @@ def _guard_lits(node: ast.AST) -> Set[Tuple[str, bool]]:
     return {next(iter(c)) for c in guard_clauses(guards(node)) if len(c) == 1}
 
 
-@rule("C03.R3", ["C03"], min_instances=6, design="3.3")
+@rule("C03.R3", ["C03", "C15", "C05"], min_instances=6, design="3.3")
 def merge_semantics(ctx):
     """time/measurement are replaced through the setter; tags/fields are merged with dict.update and unset with pop; no merge after an unset; the change verdict compares against a deep copy taken first."""
     gen, pu = updater(ctx)
@@ -215,7 +215,7 @@ def merge_semantics(ctx):
                 and isinstance(n.comparators[0], ast.Attribute) and n.left.attr == n.comparators[0].attr:
             cmp.add(n.left.attr.lstrip("_"))
     ok = cmp >= set(SLOTS)
-    yield Ob("C03.R3", ["C03", "C05"], f"{eq.qual} | compares every slot", ok,
+    yield Ob("C03.R3", ["C03", "C05", "C15"], f"{eq.qual} | compares every slot", ok,
              f"compares {sorted(cmp)}" if ok else f"compares only {sorted(cmp)}", eq.loc())
 
 
@@ -637,6 +637,8 @@ def _dt_kind(e: ast.AST, f: Func, ctx, depth: int = 0) -> Optional[Set[str]]:
                 return {USER}
             if e.id in ("rhs", "time", "old_time"):
                 return {USER}
+            if f.cls == "Point" and f.name == "time" and getattr(f, "kind", "") == "setter":
+                return {USER}  # the value handed to the time setter
             return None
         vals = assignments_to(f, e.id)
         if not vals:
@@ -708,7 +710,8 @@ def datetime_kind_discipline(ctx):
                     bad = "timestamp() of a naive value holding UTC digits is computed as if it were local time"
             site_props = ["C08"] + (["C07"] if f.name.startswith("get_") else []) + (
                 ["C01"] if f.cls == "Index" and f.name.startswith("_search") else []) + (
-                ["C09", "C01"] if f.module == "queries" else [])
+                ["C09", "C01"] if f.module == "queries" else []) + (
+                ["C06", "C01"] if f.cls == "Index" else [])
             yield Ob("C08.R3", site_props, f"{f.qual} | {a} on {'/'.join(sorted(kind))} | {norm(c, 80)}{occ(f, c)}",
                      bad is None, bad or f"{a} is valid for a {sorted(kind)} value", ctx.prog.loc(c))
     # datetime values enter the package only through the exact constructions; building one from
